@@ -103,7 +103,7 @@ def src_content(game, n, keys=4):
     return c
 
 
-def build_source(game, n, nmaps=2, variant=0):
+def build_source(game, n, nmaps=2, variant=0, odd_type=False):
     if game == "o2j":
         nmaps = 3
 
@@ -126,7 +126,9 @@ def build_source(game, n, nmaps=2, variant=0):
         elif game == "bms":
             m.title, m.artist, m.version = b"Title", b"Art", f"Diff{k}".encode()
         elif game == "sm":
-            m.chart_type = "dance-single"
+            # the second chart of a set has a type the library knows no key count for
+            # (not towards Quaver, whose mode is derived from the chart type: such a chart has no Quaver counterpart)
+            m.chart_type = "dance-single" if k != 1 or not odd_type else "pump-single"
             m.difficulty = "Hard"
             m.difficulty_val = 7 + k
         return m
@@ -167,6 +169,9 @@ def apply_history(obj, hist, game):
                 lst = m.objs[name]
                 if op == "filter" and len(lst) >= 1:
                     m.objs[name] = lst[1:]
+                elif op == "filter_mid" and len(lst) >= 2:
+                    import numpy as np
+                    m.objs[name] = lst[np.array([i != 1 for i in range(len(lst))])]
                 elif op == "sort_rev":
                     m.objs[name] = lst.sorted(reverse=True)
                 elif op == "append" and name in ("hits", "holds", "bpms", "svs"):
@@ -205,7 +210,7 @@ def exec_conv(scn):
            "src": [], "src_after": [], "outs": [], "outs_after": [], "names_src": [], "names_out": [], "src_game": sg, "tgt_game": tg,
            "merge": name.endswith(".merge")}
     try:
-        obj = build_source(sg, scn["n"])
+        obj = build_source(sg, scn["n"], odd_type=(tg != "qua"))
         obj = apply_history(obj, scn["hist"], sg)
         rec["src"] = [proj_chart(m) for m in charts_of(obj)]
         rec["names_src"] = [names_of(sg, m, obj) for m in charts_of(obj)]
@@ -222,7 +227,7 @@ def exec_conv(scn):
         rec["names_out"] = [names_of(tg, m, o) for m, o in outs]
         rec["src_after"] = [proj_chart(m) for m in charts_of(obj)]
         # history after the call: a second, different conversion must not reach into the first result
-        other = apply_history(build_source(sg, scn["n"], variant=1), scn["hist"], sg)
+        other = apply_history(build_source(sg, scn["n"], variant=1, odd_type=(tg != "qua")), scn["hist"], sg)
         call_converter(name, other, shift)
         rec["outs_after"] = [proj_chart(m) for m, _ in outs]
     except ValueError as e:
